@@ -5,6 +5,7 @@ import Dagrt.Driver.C04
 import Dagrt.Driver.C05
 import Dagrt.Driver.C08
 import Dagrt.Driver.C02
+import Dagrt.Driver.C01
 import Dagrt.Driver.C20
 import Dagrt.Driver.C13
 import Dagrt.Driver.C18
@@ -18,6 +19,7 @@ def dispatch (j : Json) : R Json := do
   | ["C05", o] => C05.handle o j
   | ["C06", o] => C06.handle o j
   | ["C02", o] => C02.handle o j
+  | ["C01", o] => C01.handle o j
   | ["C04", o] => C04.handle o j
   | ["C08", o] => C08.handle o j
   | ["C10", o] => C10.handle o j
